@@ -483,6 +483,14 @@ func Prepare(r *core.Run, extra, race bool) (*Prepared, error) {
 	// a response declaration with an exact code inside a declared class and no default
 	paths["/resp2"] = M{"get": M{"operationId": "resp2", "responses": M{
 		"200": M{"description": "ok", "content": jsonOf("NMsg")}, "404": M{"description": "nf", "content": jsonOf("E404")}, "4XX": M{"description": "ce", "content": jsonOf("F4")}}}}
+	// a query parameter whose schema is a map (additionalProperties), optional and required
+	mapSchema := func() M { return M{"type": "object", "additionalProperties": M{"type": "string"}} }
+	paths["/mapq"] = M{"get": M{"operationId": "mapq", "parameters": []any{
+		M{"name": "m", "in": "query", "required": false, "style": "form", "explode": true, "schema": mapSchema()}},
+		"responses": M{"200": M{"description": "ok"}}}}
+	paths["/mapr"] = M{"get": M{"operationId": "mapr", "parameters": []any{
+		M{"name": "m", "in": "query", "required": true, "style": "form", "explode": true, "schema": mapSchema()}},
+		"responses": M{"200": M{"description": "ok"}}}}
 	webhooks := M{"onEvent": M{"post": M{"operationId": "onEvent", "parameters": []any{
 		M{"name": "X-H", "in": "header", "required": true, "schema": M{"type": "string"}},
 		M{"name": "q", "in": "query", "required": false, "schema": M{"type": "array", "items": M{"type": "string"}}}},
@@ -694,6 +702,20 @@ func Prepare(r *core.Run, extra, race bool) (*Prepared, error) {
 			}
 		}
 	}
+	// ---- map-typed query parameters: one varies, the other holds {k: v}
+	mapOf := func(kv ...string) M {
+		m := []any{}
+		for i := 0; i+1 < len(kv); i += 2 {
+			m = append(m, []any{kv[i], strOf(kv[i+1])})
+		}
+		return M{"t": "map", "m": m}
+	}
+	for _, method := range []string{"Mapq", "Mapr"} {
+		for _, v := range []M{mapOf("a", "1"), mapOf("a", "1", "b", "x y"), mapOf("k", "v"), mapOf("a", ""), mapOf()} {
+			calls = append(calls, dcall{Method: method, Params: M{"t": "objn", "m": []any{[]any{"M", v}}}, Keys: [][]string{{"m", "query"}}})
+			metas = append(metas, meta{kind: "mapparam", vary: 0, sent: v, descr: method})
+		}
+	}
 	// ---- per-request options: the same webhook and body calls with WithServerURL(<one URL value
 	// shared by every such call of the process>); what is delivered must not change and the URL
 	// handed over must not be written to
@@ -879,6 +901,28 @@ func Check(r *core.Run) error {
 			desc = append(desc, fmt.Sprintf("%s %s body: variant %s/%s travelling as %q payload %q -> %s status %d, seen as %s type %s/%s payload %s %s", mc.op.method, mc.dir, mc.v.e[0], mc.v.e[1], mc.ct, mc.payload, outcome, res.Status, seenType, ct2[0], ct2[1], show(payload2), res.Err))
 			r.Nontrivial(fmt.Sprintf("media|%s|%s|%s/%s|%s", mc.op.method, mc.dir, mc.v.e[0], mc.v.e[1], outcome))
 			r.CovAdd("media_"+mc.dir+"_"+outcome, 1)
+		case "mapparam":
+			got, mwgot, other := absent, absent, true
+			if res.Handler && len(res.HArgs) == 1 {
+				for _, m := range res.HArgs[0]["m"].([]any) {
+					if kv := m.([]any); kv[0] == "M" {
+						got = kv[1].(M)
+					}
+				}
+				if res.MwSeen && len(res.MwParams) == 1 {
+					mwgot = res.MwParams[0]
+				}
+			}
+			nothing := func(v M) M {
+				if v["t"] == "absent" || v["t"] == "nil" || (v["t"] == "map" && len(v["m"].([]any)) == 0) {
+					return M{"t": "nil"}
+				}
+				return v
+			}
+			line = M{"kind": "mapparam", "required": mt.descr == "Mapr", "sent": nothing(mt.sent), "outcome": res.Outcome, "got": nothing(got), "mwgot": nothing(mwgot), "others": other}
+			desc = append(desc, fmt.Sprintf("%s parameter m (query form explode=true, map of strings) given %s -> %s status %d handler saw %s middleware saw %s %s", mt.descr, show(mt.sent), res.Outcome, res.Status, show(got), show(mwgot), res.Err))
+			r.Nontrivial(fmt.Sprintf("mapparam|%s|%s", mt.descr, res.Outcome))
+			r.CovAdd("map_parameter_"+res.Outcome, 1)
 		case "respd":
 			rv := mt.resp
 			v2, k2, msg2 := M{"kind": "none", "n": 0}, float64(0), ""
@@ -1063,6 +1107,13 @@ func show(v M) string {
 			xs = append(xs, show(x.(M)))
 		}
 		return "{" + strings.Join(xs, ",") + "}"
+	case "map":
+		var xs []string
+		for _, x := range v["m"].([]any) {
+			kv := x.([]any)
+			xs = append(xs, fmt.Sprintf("%v: %s", kv[0], show(kv[1].(M))))
+		}
+		return "map{" + strings.Join(xs, ", ") + "}"
 	}
 	return fmt.Sprint(v["t"])
 }
